@@ -66,14 +66,15 @@ def aln_term(a):
 
 
 class Err:
-    """the implementation raised: 0 = AssertionError, 1 = SampleNotFoundError, 2 = KeyError (alignment without RG tag)"""
-    NAMES = {0: "AssertionError", 1: "SampleNotFoundError", 2: "KeyError"}
+    """the implementation raised: 0 = AssertionError, 1 = SampleNotFoundError, 2 = KeyError (alignment without RG tag),
+    3 = any other exception (never predicted by the model: always an L2 disagreement and, on well-formed input, a violation)"""
+    NAMES = {0: "AssertionError", 1: "SampleNotFoundError", 2: "KeyError", 3: "other exception"}
 
-    def __init__(self, code):
-        self.code = code
+    def __init__(self, code, text=""):
+        self.code, self.text = code, text
 
     def __repr__(self):
-        return f"<{self.NAMES[self.code]}>"
+        return f"<{self.NAMES[self.code]}{': ' + self.text if self.text else ''}>"
 
 
 def out_term(out):
@@ -81,6 +82,32 @@ def out_term(out):
         return f"(None, {out.code})"
     return "(Some [" + "; ".join(
         f"({n}, [" + "; ".join(f"({p}, {al}, {q})" for p, al, q in vs) + "])" for n, vs in out) + "], 0)"
+
+
+DEFAULT_OPTS = dict(overhang=10, mapq=20, use_supp=False, dup=False)
+NAME_SCHEMES = {          # index -> name; the second and third share prefixes / sort against their index
+    "plain": lambda prefix, k: f"{prefix}{k}",
+    "prefix": lambda prefix, k: prefix + "1" + "0" * k,
+    "reverse": lambda prefix, k: f"{prefix}{chr(ord('z') - k)}",
+}
+
+
+def sm_name(case, k):
+    return NAME_SCHEMES[case.get("names", "plain")]("S", k)
+
+
+def rg_name(case, k):
+    return NAME_SCHEMES[case.get("names", "plain")]("g", k)
+
+
+def opts_of(case):
+    return case.get("opts", DEFAULT_OPTS)
+
+
+def opts_term(case):
+    o = opts_of(case)
+    b = lambda x: "true" if x else "false"
+    return f"({o['overhang']}, {o['mapq']}, {b(o['use_supp'])}, {b(o['dup'])})"
 
 
 def rg_term(case):
@@ -111,7 +138,7 @@ def case_term(case, refmode, out):
         truth = f"({truth_term(case['truth_all'])}, [])"
         must = "([], [], [])"
     rt = f"(Some {seq_term(ref)})" if refmode else "None"
-    rt = f"({rt}, {case.get('threshold', 100000)}%Z, {rg_term(case)})"
+    rt = f"({rt}, {case.get('threshold', 100000)}%Z, {opts_term(case)}, {rg_term(case)})"
     return f"(({rt}, {vs},\n  {alns},\n  {truth}, {must},\n  {out_term(out)}) : case_t)"
 
 
@@ -123,68 +150,100 @@ class _Sc:
         self.samples = [SAMPLE]
 
 
-def write_case_bam(case, path):
-    """BAM of the case: @RG lines in the case's header order (ID g<k>, SM S<sample> or no SM), RG tag per alignment
-    (or none); alignments sorted by start (stable)."""
+DECOY = "chrB"
+
+
+def contigs(case):
+    """contig names in header order; the decoy contig (same sequence) stands before or after the real one"""
+    d = case.get("decoy")
+    return [CHROM] if not d else ([DECOY, CHROM] if d["first"] else [CHROM, DECOY])
+
+
+def write_case_bams(case, wd):
+    """One BAM per input file of the case: @RG lines in the case's header order (SM or no SM), RG tag per alignment (or
+    none); alignments sorted by contig and start (stable).  Decoy alignments sit on the other contig."""
     import pysam
-    header = {"HD": {"VN": "1.6", "SO": "coordinate"}, "SQ": [{"SN": CHROM, "LN": len(case["ref"])}],
-              "RG": [dict(ID=f"g{g}", **({} if sm is None else {"SM": f"S{sm}"})) for g, sm in case.get("header", [(0, 0)])]}
-    with pysam.AlignmentFile(path, "wb", header=header) as out:
-        for a in case["alns"]:
-            r = pysam.AlignedSegment(out.header)
-            r.query_name = f"r{a['nid']}"
-            r.query_sequence = a["seq"]
-            r.flag = a.get("flag", 0)
-            r.reference_id = 0
-            r.reference_start = a["start"]
-            r.mapping_quality = a.get("mapq", 60)
-            r.cigartuples = [(G.OPCODE[o], n) for o, n in a["cigar"]]
-            r.query_qualities = a["qarr"]
-            if "mate_start" in a:
-                r.next_reference_id = 0
-                r.next_reference_start = a["mate_start"]
-            if a.get("rg", 0) is not None:
-                r.set_tags([("RG", f"g{a.get('rg', 0)}")])
-            out.write(r)
-    pysam.index(path)
+    names = contigs(case)
+    header = {"HD": {"VN": "1.6", "SO": "coordinate"}, "SQ": [{"SN": c, "LN": len(case["ref"])} for c in names],
+              "RG": [dict(ID=rg_name(case, g), **({} if sm is None else {"SM": sm_name(case, sm)}))
+                     for g, sm in case.get("header", [(0, 0)])]}
+    paths = []
+    for f in range(case.get("nfiles", 1)):
+        path = os.path.join(wd, f"r{f}.bam")
+        for p in (path, path + ".bai"):
+            if os.path.exists(p):
+                os.remove(p)
+        recs = [(names.index(CHROM), a) for a in case["alns"] if a.get("file", 0) == f]
+        if case.get("decoy"):
+            recs += [(names.index(DECOY), a) for a in case["decoy"]["alns"] if a.get("file", 0) == f]
+        recs.sort(key=lambda x: (x[0], x[1]["start"]))
+        with pysam.AlignmentFile(path, "wb", header=header) as out:
+            for tid, a in recs:
+                r = pysam.AlignedSegment(out.header)
+                r.query_name = f"r{a.get('qname', a['nid'])}"
+                r.query_sequence = a["seq"]
+                r.flag = a.get("flag", 0)
+                r.reference_id = tid
+                r.reference_start = a["start"]
+                r.mapping_quality = a.get("mapq", 60)
+                r.cigartuples = [(G.OPCODE[o], n) for o, n in a["cigar"]]
+                r.query_qualities = a["qarr"]
+                if "mate_start" in a:
+                    r.next_reference_id = tid
+                    r.next_reference_start = a["mate_start"]
+                if a.get("rg", 0) is not None:
+                    r.set_tags([("RG", rg_name(case, a.get("rg", 0)))])
+                out.write(r)
+        pysam.index(path)
+        paths.append(path)
+    return paths
 
 
 def run_impl(wd, case, refmode, perturb=None):
-    """Run the real ReadSetReader.read(chromosome, variants, sample, reference) on a BAM (+ FASTA) written for this case.
-    Returns sorted [(name id, [(position, allele, quality)])] or Err(code)."""
+    """Run the real ReadSetReader(paths, ...).read(chromosome, variants, sample, reference) on the BAM(s) (+ FASTA) written
+    for this case.  Returns sorted [(name id, [(position, allele, quality)])] or Err(code): every exception is an output."""
     import pyfaidx
+    import logging
     from whatshap.variants import ReadSetReader
     from whatshap.core import NumericSampleIds
     from whatshap.vcf import BiallelicVcfVariant
     from whatshap.bam import SampleNotFoundError
-    import logging
     logging.getLogger("whatshap.bam").setLevel(logging.ERROR)      # "read group without SM" warnings
-    sc = _Sc(case["ref"])
-    bam = os.path.join(wd, "r.bam")
     fa = os.path.join(wd, "ref.fa")
-    for p in (bam, bam + ".bai", fa, fa + ".fai"):
+    for p in (fa, fa + ".fai"):
         if os.path.exists(p):
             os.remove(p)
-    write_case_bam(case, bam)
+    paths = write_case_bams(case, wd)
     variants = [BiallelicVcfVariant(p, r, a) for p, r, a in case["listed"]]
     reference = None
     fasta = None
-    if refmode:
-        synth.write_fasta(sc, fa)
-        fasta = pyfaidx.Fasta(fa, as_raw=True, sequence_always_upper=True)
-        reference = fasta[CHROM]
+    o = opts_of(case)
     sample = case.get("sample", 0)
+    key = {(a.get("file", 0), a.get("qname", a["nid"])): a["nid"] for a in case["alns"]}
     try:
-        with ReadSetReader([bam], reference=None, numeric_sample_ids=NumericSampleIds(),
+        if refmode:
+            with open(fa, "w") as f:
+                for c in contigs(case):
+                    f.write(f">{c}\n{case['ref']}\n")
+            import pysam
+            pysam.faidx(fa)
+            fasta = pyfaidx.Fasta(fa, as_raw=True, sequence_always_upper=True)
+            reference = fasta[CHROM]
+        with ReadSetReader(paths, reference=None, numeric_sample_ids=NumericSampleIds(),
+                           mapq_threshold=o["mapq"], overhang=o["overhang"], duplicates=o["dup"],
+                           use_supplementary=o["use_supp"],
                            supplementary_distance_threshold=case.get("threshold", 100000)) as rsr:
-            rs = rsr.read(CHROM, variants, None if sample is None else f"S{sample}", reference)
-            out = sorted((int(r.name[1:]), [(v.position, v.allele, v.quality) for v in r]) for r in rs)
+            rs = rsr.read(CHROM, variants, None if sample is None else sm_name(case, sample), reference)
+            out = sorted((key.get((r.source_id, int(r.name[1:])), 100000 + int(r.name[1:])),
+                          [(v.position, v.allele, v.quality) for v in r]) for r in rs)
     except AssertionError:
         out = Err(0)
     except SampleNotFoundError:
         out = Err(1)
-    except KeyError:
-        out = Err(2)
+    except KeyError as e:
+        out = Err(2, repr(e))
+    except Exception as e:              # noqa: any other exception is recorded as the implementation's output
+        out = Err(3, f"{type(e).__name__}: {e}"[:200])
     finally:
         if fasta is not None:
             fasta.close()
